@@ -8,6 +8,7 @@ import c02
 from linform import Lin, lin
 from pathsum import ERR, OK, SOME, St, show_term, strip_sites
 
+RERUN_ON_CONFIGS = ("dfm", "std")
 LEVEL = "other"
 RULE_TEXT = ("C07-K buffer discipline of process, decided on the linear normal forms of the offset updates along every path "
              "of the single generic body (all N, all chunkings): K1 the adapter fills cmd_buf[read..] and read_end = read + "
